@@ -109,6 +109,10 @@ func (tbls *TBLS) ClassifyMsg(msgBytes []byte) (uint8, bool, error) {
 }
 
 func (tbls *TBLS) Init(parties []uint16, threshold int, sendMsg func(msg []byte, isBroadcast bool, to uint16)) {
+	// Messages may already be dispatched to OnMsg() while we initialize
+	tbls.lock.Lock()
+	defer tbls.lock.Unlock()
+
 	party2ID := make(map[uint16]int)
 	for i := 0; i < len(parties); i++ {
 		party2ID[parties[i]] = i + 1
@@ -133,6 +137,11 @@ func (tbls *TBLS) OnMsg(msgBytes []byte, from uint16, _ bool) {
 
 	if len(msgBytes) == 0 {
 		tbls.Logger.Warnf("Got an empty message from %d", from)
+		return
+	}
+
+	if !tbls.init {
+		tbls.Logger.Warnf("Got a message from %d before being initialized", from)
 		return
 	}
 
